@@ -24,6 +24,7 @@ Definition table_sampler (tables : list (list rule)) (ver : N) (spans : list spa
 Inductive iop :=
 | ISpan (w : N) (s : span)
 | ITick (w : N) (lf : list N)
+| ITickAll (lefts : list (list N))   (* the real ticker fired on every worker at i_now *)
 | IEject (w : N) (bytes : Z) (lf : list N)
 | IReload (c : cfg)
 | IAlloc (alloc maxalloc : Z) (lefts : list (list N))
@@ -109,6 +110,8 @@ Section RunCase.
     match i_op it with
     | ISpan w s => [SOp (N.to_nat w) (OSpan (i_now it) s)]
     | ITick w lf => [SOp (N.to_nat w) (OTick (i_now it) (tick_order (w_buf (wnth ws (N.to_nat w))) lf))]
+    | ITickAll lefts =>
+        map (fun i => SOp i (OTick (i_now it) (tick_order (w_buf (wnth ws i)) (nth i lefts [])))) workers_idx
     | IEject w bytes lf =>
         let wst := wnth ws (N.to_nat w) in
         [SOp (N.to_nat w) (OEject bytes (eject_order (eject_tt (w_cfg wst)) (w_buf wst) lf))]
@@ -241,7 +244,7 @@ Definition track_step (ts : tstate) (it : item) : tstate :=
   | ITick w lf => set_tb ts (N.to_nat w) (drop_keys (tb ts (N.to_nat w)) lf)
   | IEject w _ lf => set_tb ts (N.to_nat w) (drop_keys (tb ts (N.to_nat w)) lf)
   | IReload c => {| ts_bufs := ts_bufs ts; ts_cfg := c |}
-  | IAlloc _ _ lefts | IStop lefts =>
+  | IAlloc _ _ lefts | IStop lefts | ITickAll lefts =>
       {| ts_bufs := map (fun p : amap trace * list N => drop_keys (fst p) (snd p))
                         (combine (ts_bufs ts) (lefts ++ repeat [] (length (ts_bufs ts))));
          ts_cfg := ts_cfg ts |}
